@@ -32,6 +32,8 @@ pub struct Scen {
     /// One storage fault of the backup, addressed by (verb, path, occurrence): the same fault
     /// under every schedule.
     pub fault: Option<(V, String, usize, conserve::transport::ErrorKind)>,
+    /// B runs with DeleteOptions::break_lock (although there is no stale lock to break).
+    pub break_lock: bool,
 }
 
 /// Archive with >= 1 complete version plus garbage blocks (a large-file block and a combined
@@ -101,7 +103,7 @@ pub fn build(seed: u64, case: u64, tag: &str) -> Scen {
         garbage.len(),
         if delete.is_empty() { "gc".to_string() } else { format!("delete {delete:?}") }
     );
-    Scen { world: w, opts, delete, garbage, desc, fault: None }
+    Scen { world: w, opts, delete, garbage, desc, fault: None, break_lock: false }
 }
 
 pub struct SchedOutcome {
@@ -124,6 +126,7 @@ pub fn run_schedule(sc: &Scen, plan: &Plan) -> SchedOutcome {
     let src = sc.world.src.clone();
     let opts = sc.opts;
     let del = sc.delete.clone();
+    let break_lock = sc.break_lock;
     let (sa, sb) = (s.clone(), s.clone());
     let ta = std::thread::spawn(move || {
         let monitor = TestMonitor::arc();
@@ -156,7 +159,7 @@ pub fn run_schedule(sc: &Scen, plan: &Plan) -> SchedOutcome {
                     let archive = Archive::open(t).await.map_err(cs::errstr)?;
                     let ids: Vec<BandId> = del.iter().map(|b| BandId::new(&[*b])).collect();
                     archive
-                        .delete_bands(&ids, &DeleteOptions { dry_run: false, break_lock: false }, m2)
+                        .delete_bands(&ids, &DeleteOptions { dry_run: false, break_lock }, m2)
                         .await
                         .map_err(cs::errstr)
                 })
@@ -390,15 +393,23 @@ pub fn run(tier: Tier, replay: Option<Value>) -> i32 {
                 continue;
             }
         }
-      for pass in 0..2 {
+      for pass in 0..3 {
         let replay_fault = replay.as_ref().and_then(|r| r.get("backup_fault")).is_some();
-        if (pass == 1) != replay_fault && replay.is_some() {
+        let replay_break = replay.as_ref().and_then(|r| r.get("break_lock")).is_some();
+        if replay.is_some() && ((pass == 1) != replay_fault || (pass == 2) != replay_break) {
             continue;
         }
-        if pass == 1 && replay.is_none() && !(case == 0 || tier == Tier::Thorough) {
+        if pass >= 1 && replay.is_none() && !(case == 0 || tier == Tier::Thorough) {
             continue;
         }
         let mut sc = build(run.seed, case, "c06");
+        if pass == 2 {
+            // the collector is told to break the lock (there is none to break): it must still
+            // refuse while the newest version is incomplete, like one that was not told so
+            sc.break_lock = true;
+            sc.desc.push_str("; B runs with break_lock");
+            run.count("scenarios_with_break_lock", 1);
+        }
         if pass == 1 {
             // a fault and a schedule together: the backup's second look for GC_LOCK (the root
             // listing that follows its BANDHEAD write) fails; the backup must not carry on as if
@@ -471,6 +482,10 @@ pub fn run(tier: Tier, replay: Option<Value>) -> i32 {
                             replay["backup_fault"] = json!(true);
                             run.count("schedules_run_with_a_fault_on_the_backups_lock_recheck", 1);
                         }
+                        if pass == 2 {
+                            replay["break_lock"] = json!(true);
+                            run.count("schedules_run_with_break_lock", 1);
+                        }
                         judge(&run, &arc_sc, plan, &o, &replay);
                         crate::scratch::rm(&o.arch);
                     }
@@ -481,9 +496,9 @@ pub fn run(tier: Tier, replay: Option<Value>) -> i32 {
     }
     let _ = Path::new("");
     run.finish(
-        "actors A = backup(source) and B = gc, delete of the oldest version, or delete of the newest version (the backup's basis), on archives holding a complete version plus garbage blocks (a large-file block and a combined block left by a hand-removed band) whose content reappears in A's source; every storage operation of either actor is parked until a deterministic scheduler grants it (the scheduler only chooses when both actors are settled). Schedules: all with <= 1 preemption (every start offset of either actor, every switch point), a grid of 2-preemption schedules (every pair in the thorough tier), random schedules with 3-5 switches, and 3-preemption schedules aimed at the operations where the actors look at each other (lock file, root listing, band directory, block directory, first removals, hunk and tail writes): every triple (X stops before its a1-th operation, Y before its b1-th, X before its a2-th) over those positions, 1500 sampled in the quick tier. For the first scenario (every scenario in the thorough tier) all schedules up to two preemptions are run once more with one storage fault added: the backup's second look for the lock (the root listing after its BANDHEAD write) fails. When both have finished: every version with a tail must restore exactly to the tree it was made from and no complete band may reference a removed block. Distinct = distinct grant sequences.",
+        "actors A = backup(source) and B = gc, delete of the oldest version, or delete of the newest version (the backup's basis), on archives holding a complete version plus garbage blocks (a large-file block and a combined block left by a hand-removed band) whose content reappears in A's source; every storage operation of either actor is parked until a deterministic scheduler grants it (the scheduler only chooses when both actors are settled). Schedules: all with <= 1 preemption (every start offset of either actor, every switch point), a grid of 2-preemption schedules (every pair in the thorough tier), random schedules with 3-5 switches, and 3-preemption schedules aimed at the operations where the actors look at each other (lock file, root listing, band directory, block directory, first removals, hunk and tail writes): every triple (X stops before its a1-th operation, Y before its b1-th, X before its a2-th) over those positions, 1500 sampled in the quick tier. For the first scenario (every scenario in the thorough tier) all schedules up to two preemptions are run once more with one storage fault added: the backup's second look for the lock (the root listing after its BANDHEAD write) fails; and once more with the collector running with the break_lock option although there is no lock to break. When both have finished: every version with a tail must restore exactly to the tree it was made from and no complete band may reference a removed block. Distinct = distinct grant sequences.",
         &["granularity is one storage operation; operations of parallel listing tasks of one actor are granted in canonical order", "interleavings beyond the explored preemption bound are sampled, not enumerated"],
         Some(false),
-        &[("schedules_run", 50), ("schedules_backup_references_former_garbage", 5), ("complete_versions_restored", 100), ("schedules_run_with_a_fault_on_the_backups_lock_recheck", 100)],
+        &[("schedules_run", 50), ("schedules_backup_references_former_garbage", 5), ("complete_versions_restored", 100), ("schedules_run_with_a_fault_on_the_backups_lock_recheck", 100), ("schedules_run_with_break_lock", 100)],
     )
 }
